@@ -47,6 +47,15 @@ CONC_TB = ["sequentially consistent interleaving of the atomic / lock operations
            "the cfg(prometheus_verif) sync shim and the scheduler (harness/src/sched.rs) decide what 'the same schedule' means"]
 
 PROPS = {
+    "C20": dict(
+        module="Prom.Props.C20",
+        areas=[dict(area="macro", quick=1500, thorough=60000)],
+        rule="case = one real call site of a public macro form (44 register_* forms, opts! with 0/1/2 label maps, histogram_opts! with 2/3/4 arguments, labels!) x with/without trailing comma, with run-time generated arguments "
+             "(names, help incl. empty, two const-label maps sharing keys, 0-2 label names, bucket lists incl. empty / with +Inf / unordered, a plain or a prefixed+labelled registry); the created metric is compared with the explicit constructor call, "
+             "its registry membership is probed in the named and in the default registry; non-trivial = the call site returns Ok; distinct by request text",
+        trusted=["translate/macros.py parses src/macros.rs into the arm table (unknown idioms become `unknown` and fail the theorem)",
+                 "rustc's macro expansion is exercised per call site, not proved; constructor failures panic by documented design (unwrap)"],
+    ),
     "C16": dict(
         module="Prom.Props.C16",
         areas=[dict(area="c16", quick=800, thorough=30000)],
